@@ -20,11 +20,17 @@ var ErrInjected = errors.New("simio: injected read error")
 // loop without an EOF exit. The harness recovers it and classifies it.
 var SpinSentinel = errors.New("simio: consumer spins after end of stream")
 
+// WouldBlock is the panic value raised by a reader whose plan ends "open"
+// (the peer keeps the stream open after its message) when the consumer asks
+// for more bytes than the message holds: on a real pipe that Read never
+// returns.
+var WouldBlock = errors.New("simio: consumer reads past the end of the message on an open stream (it would block forever)")
+
 // Plan describes how data is delivered.
 type Plan struct {
 	Chunk    string // "all" | "1" | "2" | "3" | "7" | "half" | "4095" | "4096" | "4097" | "rand"
 	Zeros    bool   // up to two consecutive (0,nil) reads now and then
-	Terminal string // "eof" | "cut" | "err" | "unexpected"
+	Terminal string // "eof" | "cut" | "err" | "unexpected" | "open" (no end: a read past the data would block)
 	CutAt    int    // for cut/err/unexpected: bytes delivered before the terminal event
 	Stall    time.Duration
 	StallAt  int
@@ -89,7 +95,7 @@ type Reader struct {
 }
 
 func NewReader(data []byte, plan Plan, t *tape.Tape) *Reader {
-	if plan.Terminal != "eof" && plan.CutAt < len(data) {
+	if plan.Terminal != "eof" && plan.Terminal != "open" && plan.CutAt < len(data) {
 		data = data[:plan.CutAt]
 	}
 	return &Reader{data: data, plan: plan, t: t}
@@ -121,6 +127,9 @@ func (r *Reader) Read(p []byte) (int, error) {
 		return 0, nil
 	}
 	if r.off >= len(r.data) {
+		if r.plan.Terminal == "open" {
+			panic(WouldBlock)
+		}
 		r.ended = true
 		return 0, r.terminalErr()
 	}
